@@ -1037,11 +1037,31 @@ def check_grid_search(model, grid, param_map, outputs, vectorize=True, permute=F
     return fails
 
 
-def check_dde_field(model, solver, seed=0, dt=0.01, vectorize=False):
+def compile_two_stage(model, dt, vectorize=False):
+    """The documented two-stage route: CircuitTemplate.apply(...) with its defaults (adaptive_steps left unset), then
+    CircuitIR.get_run_func on the intermediate representation."""
+    tpl = mdl.build_templates(model)
+    if SEQUENCE_MODE:
+        _SEQ_TEMPLATES.append(tpl)
+    tpl.apply(step_size=dt, vectorize=vectorize, verbose=False, backend="default", float_precision="float64")
+    ir = tpl.intermediate_representation
+    func, args, names, smap_b = ir.get_run_func("vf2", file_name="vf2_mod")
+    smap, fnames = {}, []
+    for v, idx in smap_b.items():
+        smap[ir.get_frontend_varname(v)] = idx
+    for a in names:
+        try:
+            fnames.append(ir.get_frontend_varname(a))
+        except Exception:
+            fnames.append(a)
+    return dict(func=func, args=args, names=tuple(fnames), smap=smap, tpl=tpl, backend="default")
+
+
+def check_dde_field(model, solver, seed=0, dt=0.01, vectorize=False, two_stage=False):
     """C10-B1: the compiled function evaluates each delayed term as component x of hist(t - tau) (t in time units)."""
     rng = np.random.default_rng(seed)
     try:
-        comp = compile_model(model, vectorize=vectorize, solver=solver, step_size=dt)
+        comp = compile_two_stage(model, dt, vectorize) if two_stage else compile_model(model, vectorize=vectorize, solver=solver, step_size=dt)
     except Exception as exn:
         return [dict(clause="get_run_func returns a function for a delayed model", observed=f"{type(exn).__name__}: {exn}")]
     names = list(comp["names"])
